@@ -308,17 +308,17 @@ Proof.
   eapply Permutation_trans; [apply Permutation_app_head; exact Hr|]. apply Permutation_sym. apply Permutation_middle.
 Qed.
 
-Theorem fo_from_list_order l w :
-  winv (cnt []) None w -> Z.of_nat (length l) < msb P -> fo_oinv (fst (fo_from_list P l w)).
+Theorem fo_from_list_order h l w :
+  winv (cnt []) None w -> Z.of_nat (length l) < msb P -> fo_oinv (fst (fo_from_list P h l w)).
 Proof.
   intros Hw Hlen. pose proof (@wmod_2msb P (HW2 HP)) as Hwm. pose proof (@msb_pos P (HW2 HP)) as Hm.
   unfold fo_from_list, fu_from_list.
-  pose proof (@fu_with_capacity_spec false (Nat.max (length (index_children P l 0)) (pMinCap P)) w Hw) as H0.
-  assert (Hrun0 : run_fu (fst (fu_with_capacity (Nat.max (length (index_children P l 0)) (pMinCap P)) w)) = []).
+  pose proof (@fu_with_capacity_spec false (Nat.max h (pMinCap P)) w Hw) as H0.
+  assert (Hrun0 : run_fu (fst (fu_with_capacity (Nat.max h (pMinCap P)) w)) = []).
   { unfold fu_with_capacity. destruct (Nat.eqb _ 0); [reflexivity|].
-    destruct (fub_new_eq' (Nat.max (length (index_children P l 0)) (pMinCap P)) w) as (w0 & ->).
+    destruct (fub_new_eq' (Nat.max h (pMinCap P)) w) as (w0 & ->).
     unfold run_fu, run_gs. simpl. rewrite run_of_new. reflexivity. }
-  destruct (fu_with_capacity (Nat.max (length (index_children P l 0)) (pMinCap P)) w) as [u0 w0].
+  destruct (fu_with_capacity (Nat.max h (pMinCap P)) w) as [u0 w0].
   destruct H0 as (A & B & _). simpl in Hrun0.
   pose proof (fu_push_fold_run (index_children P l 0) A B) as Hp.
   destruct (fold_left _ (index_children P l 0) (u0, w0)) as [u w1]. cbn [fst snd] in *.
